@@ -374,10 +374,12 @@ func (w *World) stopped() bool {
 	return w.goalOK
 }
 
-// serverLoop plays gRPC's server: Accept, handshake, serve, Accept again, for
-// as long as the run lasts.
+// serverLoop plays gRPC's server: it calls Accept again as soon as Accept has
+// returned (so exclusivity is up to the listener) and serves every connection
+// in its own thread.
 func (w *World) serverLoop() {
 	rd := w.sc.Round
+	var handlers sync.WaitGroup
 	for attempt := 0; attempt < w.sc.MaxAttempts && !w.stopped(); attempt++ {
 		conn, err := w.srv.Accept()
 		if err != nil {
@@ -385,45 +387,67 @@ func (w *World) serverLoop() {
 			w.sessS = append(w.sessS, &Session{Side: "server", Index: len(w.sessS), At: w.s.Now(), HsErr: "accept: " + err.Error(), ClosedAt: w.s.Now()})
 			w.mu.Unlock()
 			if strings.Contains(err.Error(), "EOF") {
-				return
+				break
 			}
 			time.Sleep(time.Second)
 			vrt.Point("server.retry")
 			continue
 		}
 		ss := w.newSession("server", attempt, &w.sessS, conn, w.cdS)
-		noise := mailbox.NewNoiseGrpcConn(w.cdS, w.noiseOpts()...)
-		sec, _, err := noise.ServerHandshake(conn)
-		if err != nil {
-			w.mu.Lock()
-			ss.HsErr = err.Error()
-			ss.ClosedAt = w.s.Now()
-			w.mu.Unlock()
-			_ = conn.Close()
-			continue
-		}
-		w.mu.Lock()
-		ss.Secured, ss.HsDone = sec, true
-		w.mu.Unlock()
-		w.runApp(ss, rd.S2C, rd.C2S, "S2C", "C2S", rd.Closer == "server")
-	}
-}
-
-// clientLoop plays gRPC's client: Dial, handshake, use, re-dial, until it has
-// completed the wanted number of rounds (and the run has settled).
-func (w *World) clientLoop() {
-	rd := w.sc.Round
-	for attempt := 0; attempt < w.sc.MaxAttempts && !w.stopped(); attempt++ {
-		if w.successes(w.sessC) >= w.sc.Rounds {
-			// give the server a moment to finish its side of the last
-			// session before deciding that another one is needed
-			for i := 0; i < 10 && w.successes(w.sessS) < w.sc.Rounds && !w.stopped(); i++ {
-				time.Sleep(time.Second)
-				vrt.Point("client.settle")
-			}
-			if w.successes(w.sessS) >= w.sc.Rounds {
+		handlers.Add(1)
+		vrt.Go("server-handler", func() {
+			defer handlers.Done()
+			if w.stopped() {
+				w.mu.Lock()
+				ss.HsErr, ss.ClosedAt = "not needed any more: closed by the application", w.s.Now()
+				w.mu.Unlock()
+				_ = conn.Close()
 				return
 			}
+			noise := mailbox.NewNoiseGrpcConn(w.cdS, w.noiseOpts()...)
+			sec, _, err := noise.ServerHandshake(conn)
+			if err != nil {
+				w.mu.Lock()
+				ss.HsErr = err.Error()
+				ss.ClosedAt = w.s.Now()
+				w.mu.Unlock()
+				_ = conn.Close()
+				return
+			}
+			w.mu.Lock()
+			ss.Secured, ss.HsDone = sec, true
+			w.mu.Unlock()
+			w.runApp(ss, rd.S2C, rd.C2S, "S2C", "C2S", rd.Closer == "server")
+		})
+	}
+	vrt.Point("server.join")
+	handlers.Wait()
+	vrt.Woke("server.join")
+}
+
+func (w *World) clientSatisfied() bool {
+	if w.successes(w.sessC) < w.sc.Rounds {
+		return false
+	}
+	// give the server a moment to finish its side of the last session
+	// before deciding that another one is needed
+	for i := 0; i < 10 && w.successes(w.sessS) < w.sc.Rounds && !w.stopped(); i++ {
+		time.Sleep(time.Second)
+		vrt.Point("client.settle")
+	}
+	return w.successes(w.sessS) >= w.sc.Rounds
+}
+
+// clientLoop plays gRPC's client: it dials again as soon as Dial has returned
+// (a reconnecting gRPC channel may dial while the old transport is still being
+// torn down, so exclusivity is up to the dialer) and runs every connection in
+// its own thread, until the wanted number of sessions has completed.
+func (w *World) clientLoop() {
+	rd := w.sc.Round
+	var handlers sync.WaitGroup
+	for attempt := 0; attempt < w.sc.MaxAttempts && !w.stopped(); attempt++ {
+		if attempt > 0 && w.clientSatisfied() {
+			break
 		}
 		conn, err := w.cl.Dial(w.rootCtx, "relay")
 		if err != nil {
@@ -435,36 +459,51 @@ func (w *World) clientLoop() {
 			continue
 		}
 		ss := w.newSession("client", attempt, &w.sessC, conn, w.cdC)
-		noise := mailbox.NewNoiseGrpcConn(w.cdC, w.noiseOpts()...)
-		sec, _, err := noise.ClientHandshake(w.rootCtx, "relay", conn)
-		if err != nil {
+		handlers.Add(1)
+		vrt.Go("client-handler", func() {
+			defer handlers.Done()
+			if w.stopped() || (w.successes(w.sessC) >= w.sc.Rounds && w.successes(w.sessS) >= w.sc.Rounds) {
+				w.mu.Lock()
+				ss.HsErr, ss.ClosedAt = "not needed any more: closed by the application", w.s.Now()
+				w.mu.Unlock()
+				_ = conn.Close()
+				return
+			}
+			noise := mailbox.NewNoiseGrpcConn(w.cdC, w.noiseOpts()...)
+			sec, _, err := noise.ClientHandshake(w.rootCtx, "relay", conn)
+			if err != nil {
+				w.mu.Lock()
+				ss.HsErr = err.Error()
+				ss.ClosedAt = w.s.Now()
+				w.mu.Unlock()
+				time.Sleep(time.Second) // gRPC's reconnect back-off
+				vrt.Point("client.backoff")
+				_ = conn.Close()
+				return
+			}
 			w.mu.Lock()
-			ss.HsErr = err.Error()
-			ss.ClosedAt = w.s.Now()
+			ss.Secured, ss.HsDone = sec, true
 			w.mu.Unlock()
-			_ = conn.Close()
-			time.Sleep(time.Second)
-			vrt.Point("client.retry")
-			continue
-		}
-		w.mu.Lock()
-		ss.Secured, ss.HsDone = sec, true
-		w.mu.Unlock()
-		ok := w.runApp(ss, rd.C2S, rd.S2C, "C2S", "S2C", rd.Closer == "client")
-		if ok && w.sc.Intruder == "after" && !w.intruderOn {
-			// the pairing is over: a stranger with the old passphrase
-			// shows up
-			w.intruderOn = true
-			w.mu.Lock()
-			w.loops++
-			w.mu.Unlock()
-			vrt.Go("intruder", func() { defer w.loopDone(); w.intruderAttempt() })
-		}
-		if !ok {
-			time.Sleep(time.Second)
-			vrt.Point("client.retry")
-		}
+			ok := w.runApp(ss, rd.C2S, rd.S2C, "C2S", "S2C", rd.Closer == "client")
+			if ok && w.sc.Intruder == "after" {
+				w.mu.Lock()
+				start := !w.intruderOn
+				if start {
+					w.intruderOn = true
+					w.loops++
+				}
+				w.mu.Unlock()
+				if start {
+					// the pairing is over: a stranger with the old
+					// passphrase shows up
+					vrt.Go("intruder", func() { defer w.loopDone(); w.intruderAttempt() })
+				}
+			}
+		})
 	}
+	vrt.Point("client.join")
+	handlers.Wait()
+	vrt.Woke("client.join")
 }
 
 // intruderAttempt: a different client that only knows the original passphrase
